@@ -113,6 +113,16 @@ theorem C20_question_ctor (p q : Question) :
   rw [C20_question]
   simp only [Question.normCtor, Question.specIdent, class_of_eq_mod, Prod.mk.injEq]
 
+/-- known-answer suppression on the `add_answer` / `suppressed_by` path: a known answer suppresses a record exactly
+when it is the same record and carries more than half of its TTL -/
+theorem C20_suppressed_by_answer_iff (a b : Rec) :
+    a.suppressedByAnswer lower b = true ↔
+      a.rdata.kind = b.rdata.kind ∧ a.specIdent lower = b.specIdent lower ∧ a.ttl < 2 * b.ttl := by
+  simp only [Rec.suppressedByAnswer, Bool.and_eq_true, C20_eq_iff, Gen.Dns.suppressed_by_answer_ttl, decide_eq_true_eq]
+  constructor
+  · rintro ⟨⟨h1, h2⟩, h3⟩; exact ⟨h1, h2, by omega⟩
+  · rintro ⟨h1, h2, h3⟩; exact ⟨⟨h1, h2⟩, by omega⟩
+
 /-! Known-answer suppression (`DNSRRSet.suppresses`, model `rrsetLookup` / `rrsetSuppresses` in
 `Model/Dns`, replayed against the real class by the driver command `c20s`) looks the record up by
 identity: the answer depends only on identity and the two TTLs. -/
